@@ -272,7 +272,7 @@ def small_scope(cfg, quick):
     for s1, s2 in itertools.product(classes, repeat=2):
         for t1, t2 in itertools.product((0, 1), repeat=2):
             for r1, r2 in itertools.product((0, 1, ANY), repeat=2):
-                for rsrc in ((0,) if quick else (0, ANY)):
+                for rsrc in ((0,) if (quick or cfg not in ("default", "low")) else (0, ANY)):
                     for style in (("irecv",) if quick else ("irecv", "recv")):
                         for rbuf in (("cap",) if quick else ("cap", "exact")):
                             b1 = cap if rbuf == "cap" else s1
